@@ -1,11 +1,6 @@
+# commits in /repo that add build-tag-guarded hooks (none so far: everything is injected with -overlay)
 HOOK_COMMITS = []
 
-# properties not (yet) claimed; removed from this list automatically once they appear in props.PROPS
+# properties not (yet) claimed; an entry is dropped automatically once lib/propdefs/<id>.py exists
 _PENDING = "check not built yet in this development; to be claimed once its model, theorems and driver exist"
 NOT_APPLICABLE = {("C%02d" % i): _PENDING for i in range(1, 20)}
-
-LEVEL_TEXT = {
-    "C18": "Theorems for all (total, free, operator value) triples: the decision equals free < floor(tau) with tau spelled as in the property (exact to the byte) wherever Go defines the float->uint64 conversion, monotone in free space for ALL inputs incl. NaN/Inf/out-of-range, branches meet at 256 GiB, watcher loop tracks the threshold on every tick sequence. Model tied to checkThreshold and to the real WatchDiskSpace loop by a boundary-dense differential check on every run.",
-}
-
-TECHNIQUE = {}
